@@ -9,7 +9,32 @@
    dispatch_group_leave calls on the private group; nreg / fcnt i = notifications registered / times notification i
    was submitted; cancelled = some dispatch_block_cancel has performed its os_atomic_or.
    The private group itself (dispatch_group_wait / _notify / _leave) is abstracted as stated in Block.v; its own
-   correctness is property C07. *)
+   correctness is property C07.
+
+   WHAT KIND OF STATEMENT EACH THEOREM IS (audit F8):
+   - IMPORTED, NOT PROVED HERE: the semantics of the private group.  "dispatch_group_wait answers 0 only when the count
+     is zero", "answers non-zero only for a timeout other than FOREVER" and "a notification is submitted at once when
+     the count is zero, otherwise by the leave that reaches zero, exactly once" are built into Block.gstep / tstep_grp
+     (G_WAITRET, G_NOTIFY, leave_fx) BY FIAT; they are C07's clauses (and C07 does not prove the elapsed-time half of the
+     timeout clause: that one is judged on the real library with its own clock).  C19_wait_nonzero_only_by_timeout and
+     the "exactly once" of C19_notify_once_not_early are therefore restatements of those assumptions about the group;
+     what C19 adds is WHEN the group is left (the first completion, or the destructor of a never-performed object).
+   - SINGLE-STEP UNFOLDINGS of tstep / gstep with no reachability hypothesis, i.e. readings of the model rather than
+     invariants: C19_leave_iff_increment_returns_1, C19_wait_nonzero_only_by_timeout, C19_wait_returns_group_result,
+     C19_wait_way_out_keeps_other_bits, C19_cancel_while_running_not_interrupted ("not interrupted" is true by
+     construction: PInBody has one outgoing event), C19_no_thread_moves_another, C19_cancel_sets_bit,
+     C19_testcancel_monotone.  Their value is only as good as the tie of the model to the code (site lists, per-thread
+     conformance, whole-round replay on the global model).
+   - INVARIANTS of every reachable state (inv_reach): all the others.
+
+   END OF LIFE (src/block.cpp, destructor of the private data, run by the release of the LAST reference): modelled
+   (OP_RELEASE, the PDtor program points).  An object destroyed WITHOUT EVER HAVING BEEN PERFORMED leaves its group: registered
+   notifications are then submitted although nothing completed.  This is the library's behaviour (confirmed on the real
+   library); block.h declares "observed ... and never executed" undefined, so the property's "not before that completion"
+   holds for clients inside the documented contract, and the theorems below state the second way out explicitly
+   (dleave).  Client contract assumed by the release step: it is the last reference — no thread is inside a call on the
+   object, no submission is queued (C19_last_release_is_quiescent) — so a waiter can never be answered by the
+   destructor (C19_wait_zero_*: dleave s = false). *)
 From Coq Require Import ZArith Bool List.
 From Verif Require Import Word Conc Gen_consts Gen_fields Gen_group Gen_block Block Block_proofs BlockR BlockR_proofs.
 Import ListNotations.
@@ -20,21 +45,42 @@ Local Open Scope Z_scope.
    after an increment of dbpd_performed, itself after some invocation reached `out:` *)
 Theorem C19_wait_zero_after_first_completion : forall pf s t e s' tmo,
   reach pf s -> pcs s t = PWaitG tmo -> gstep s t e = Some s' -> pcs s' t = PWaitOut 0 ->
-  leaves s = 1 /\ 1 <= ninv s /\ 1 <= fin s.
+  leaves s = 1 /\ dleave s = false /\ 1 <= ninv s /\ 1 <= fin s.
 Proof. exact wait_zero_after_first_completion. Qed.
 Print Assumptions C19_wait_zero_after_first_completion.
 (* ... and so for a waiter on its way out with result 0, and whenever DBF_WAITED is set *)
 Theorem C19_wait_zero_state : forall pf s t,
-  reach pf s -> (pcs s t = PWaitOut 0 \/ Z.testbit (flags s) 2 = true) -> leaves s = 1 /\ 1 <= ninv s /\ 1 <= fin s.
+  reach pf s -> (pcs s t = PWaitOut 0 \/ Z.testbit (flags s) 2 = true) ->
+  leaves s = 1 /\ dleave s = false /\ 1 <= ninv s /\ 1 <= fin s.
 Proof. exact wait_zero_state. Qed.
 Print Assumptions C19_wait_zero_state.
-(* the group's only leave: performed by a thread at PLeave (reached only through an increment whose result is 1),
-   at most once, after that thread's own body / skip *)
+(* the group is left at most once, in one of two ways: by a thread at PLeave (reached only through an increment whose
+   result is 1) after that thread's own body / skip, or by the destructor of an object that was never performed *)
 Theorem C19_only_leave_at_first_completion : forall pf s t e s',
   reach pf s -> gstep s t e = Some s' -> leaves s' <> leaves s ->
-  exists v, pcs s t = PLeave v /\ leaves s = 0 /\ leaves s' = 1 /\ gcount s' = 0 /\ 1 <= ninv s /\ 1 <= fin s.
+  leaves s = 0 /\ leaves s' = 1 /\ gcount s' = 0 /\
+  ((exists v, pcs s t = PLeave v /\ 1 <= ninv s /\ 1 <= fin s /\ dleave s' = false) \/
+   (pcs s t = PDtorLeave /\ disposed s = true /\ performed s = 0 /\ dleave s' = true)).
 Proof. exact only_leave. Qed.
 Print Assumptions C19_only_leave_at_first_completion.
+(* the destructor: `if (!dbpd_performed) dispatch_group_leave(dbpd_group)` *)
+Theorem C19_destructor_leaves_iff_never_performed : forall pf s t e s',
+  reach pf s -> pcs s t = PDtorPerf -> gstep s t e = Some s' ->
+  pcs s' t = (if performed s =? 0 then PDtorLeave else PDtorPost) /\ leaves s' = leaves s.
+Proof. exact destructor_leaves_iff_never_performed. Qed.
+Print Assumptions C19_destructor_leaves_iff_never_performed.
+(* the release of the last reference is enabled only when nobody is inside a call and nothing is queued (client contract);
+   from then on only the destroying thread moves *)
+Theorem C19_last_release_is_quiescent : forall pf s t e s',
+  reach pf s -> pcs s t = PIdle -> ev_kind e DVU_CALL = true -> ea e = OP_RELEASE -> gstep s t e = Some s' ->
+  (forall u, pcs s u = PIdle) /\ pendsub s = 0 /\ disposed s = false /\ disposed s' = true /\ dtor s' = Some t /\
+  pcs s' t = PDtorPerf.
+Proof. exact last_release_is_quiescent. Qed.
+Print Assumptions C19_last_release_is_quiescent.
+Theorem C19_no_use_after_last_release : forall s t e s', gstep s t e = Some s' ->
+  disposed s = false \/ (dtor s = Some t /\ pc_idle (pcs s t) = false).
+Proof. exact gstep_alive. Qed.
+Print Assumptions C19_no_use_after_last_release.
 Theorem C19_leave_iff_increment_returns_1 : forall self v e p, tstep self (PInc v) e = Some p ->
   (p = PLeave v /\ wrapsz 4 (ea e + 1) = 1) \/ (p = PPost v false /\ wrapsz 4 (ea e + 1) <> 1).
 Proof. exact leave_iff_inc_result_1. Qed.
@@ -63,9 +109,11 @@ Proof. exact wait_way_out_effect. Qed.
 Print Assumptions C19_wait_way_out_keeps_other_bits.
 
 (* ---- dispatch_block_notify: each notification exactly once, not before the first completion ---- *)
+(* ... or, second way out, not before the destructor of an object that was never performed has left the group *)
 Theorem C19_notify_once_not_early : forall pf s i, reach pf s ->
   0 <= fcnt s i <= 1 /\
-  (fcnt s i = 1 -> 0 <= i < nreg s /\ leaves s = 1 /\ 1 <= ninv s /\ 1 <= fin s) /\
+  (fcnt s i = 1 -> 0 <= i < nreg s /\ leaves s = 1 /\
+     ((dleave s = false /\ 1 <= ninv s /\ 1 <= fin s) \/ (dleave s = true /\ disposed s = true /\ performed s = 0))) /\
   (0 <= i < nreg s -> leaves s = 1 -> fcnt s i = 1) /\
   (0 <= i < nreg s -> leaves s = 0 -> fcnt s i = 0 /\ In i (pending s)).
 Proof. exact notify_once_not_early. Qed.
@@ -198,6 +246,19 @@ Theorem C19_inv_b_reach : forall pf s ths, reach pf s -> inv_b s ths = true.
 Proof. exact inv_b_reach. Qed.
 Print Assumptions C19_inv_b_reach.
 
+(* standing negative tests: observation sequences accepted thread by thread (the first conjunct) that no run of the global
+   model explains — a testcancel answering non-zero with no cancel anywhere, a worker skipping the body with no cancel, a
+   body run by an invocation begun after a cancel had returned, an invocation from a queue with no submission — are NOT
+   reproduced by the replay (second component of its result = recorded events left over) *)
+Theorem C19_replay_refuses_inconsistent_rounds :
+  conform 8 false [Uv DVU_CALL OP_TESTCANCEL 0; Uv DVU_RET 1 0] = (-1, 1) /\
+  nth 1 (replay false 8 neg1_qs [8; 8]) 0 = 1 /\
+  nth 1 (replay false 8 neg2_qs [7; 7; 7; 11; 11; 11]) 0 = 3 /\
+  nth 1 (replay false 8 neg3_qs [6; 6; 6; 5; 5; 5; 5; 5; 5]) 0 = 5 /\
+  nth 1 (replay false 8 neg4_qs [11; 11; 11; 11; 11]) 0 = 5.
+Proof. exact negative_replays. Qed.
+Print Assumptions C19_replay_refuses_inconsistent_rounds.
+
 (* ---- non-vacuity ---- *)
 (* a concrete schedule: 7 submits by dispatch_async; 9 waits with a finite timeout (takes the boost queue, sleeps
    in the group); 8 cancels meanwhile; 9 times out (DBF_CANCELED survives), registers a notification; worker 11
@@ -215,6 +276,13 @@ Definition part1 : list (Z * event) :=
     (8, U DVU_CALL OP_CANCEL 0); (8, B DV_OR MO_RELAXED OFF_FLAGS 4 2 1 1); (8, U DVU_RET 0 0);
     (9, Gp DVG_WAITRET 0 0 0 1 0); (9, B DV_AND MO_RELAXED OFF_FLAGS 4 3 4294967293 1);
     (9, U DVU_RET 18446744073709551615 0) ].
+(* an object observed, cancelled and then released without ever having been executed: the destructor leaves the group
+   and the notification is submitted (no body, no completion) *)
+Definition dispose_run : list (Z * event) :=
+  [ (9, U DVU_CALL OP_NOTIFY 0); (9, B DV_LOAD MO_RELAXED OFF_PERF 4 0 0 1); (9, Gp DVG_NOTIFY 0 0 0 0 0); (9, U DVU_RET 0 0);
+    (8, U DVU_CALL OP_CANCEL 0); (8, B DV_OR MO_RELAXED OFF_FLAGS 4 0 1 1); (8, U DVU_RET 0 0);
+    (1, U DVU_CALL OP_RELEASE 0); (1, B DV_LOAD MO_PLAIN OFF_PERF 4 0 0 1); (1, Gp DV_ADD MO_RELEASE 0 8 4294967294 4);
+    (1, Gp DV_LOAD MO_RELAXED 0 8 4294967296 4294967296); (1, B DV_LOAD MO_PLAIN OFF_QUEUE 8 0 0 1); (1, U DVU_RET 0 0) ].
 Definition part2 : list (Z * event) :=
   [ (9, U DVU_CALL OP_NOTIFY 0); (9, B DV_LOAD MO_RELAXED OFF_PERF 4 0 0 1); (9, Gp DVG_NOTIFY 0 0 0 0 0); (9, U DVU_RET 0 0);
     (11, B DV_LOAD MO_PLAIN OFF_FLAGS 4 1 1 1); (11, B DV_ADD MO_RELAXED OFF_PERF 4 0 1 1) ].
@@ -249,6 +317,14 @@ Example C19_nonvacuous :
   match grun (init_state false) direct_run with
   | Some s => bodies s = 1 /\ fin s = 1 /\ leaves s = 1 /\ flags s = 1 /\ thread s = 5 /\ pcs s 5 = PIdle
   | None => False end /\
+  match grun (init_state false) dispose_run with
+  | Some s => disposed s = true /\ dleave s = true /\ leaves s = 1 /\ fcnt s 0 = 1 /\ bodies s = 0 /\ fin s = 0 /\ ninv s = 0 /\
+              pcs s 1 = PIdle /\ flags s = 1
+  | None => False end /\
+  (* after the last release nobody may touch the object: a testcancel is refused; and a release while a submission is
+     queued is refused (it cannot be the last reference) *)
+  grun (init_state false) (dispose_run ++ [(8, U DVU_CALL OP_TESTCANCEL 0)]) = None /\
+  grun (init_state false) (firstn 3 part1 ++ [(1, U DVU_CALL OP_RELEASE 0)]) = None /\
   (* the recorded (visible) part of worker 11's trace is accepted by the conformance automaton *)
   conform 11 false [B DV_ADD MO_RELAXED OFF_PERF 4 0 1 1; Gp DV_ADD MO_RELEASE 0 8 4294967295 4;
               Gp DV_CAS MO_RELAXED 0 8 4294967299 4294967296; B DV_XCHG MO_RELAXED OFF_QUEUE 8 0 0 1] = (-1, 1) /\
